@@ -212,7 +212,7 @@ def discovered_structs(desc):
     return seen
 
 
-def sx_project(desc, src=SRC):
+def sx_project(desc, src="./" + SRC):
     """src: the project path as spelled to the tool (file_path = <project path>/<file>).
     project = list of source files (path, commands, discovered structs, events); the discovery order is chosen
     by the schedule argument of the model, not here."""
@@ -228,7 +228,7 @@ def sx_project(desc, src=SRC):
     return files
 
 
-def sx_cfg(cfg, map_order=None):
+def sx_cfg(cfg, map_order=None, ppath="./" + SRC):
     tm = cfg.get("type_mappings")
     if tm is None:
         maps = []
@@ -236,7 +236,7 @@ def sx_cfg(cfg, map_order=None):
         keys = map_order if map_order is not None else sorted(tm)
         maps = [[[k, tm[k]] for k in keys]]
     return [cfg["validation_library"], bool(cfg["include_private"]), maps, cfg["default_parameter_case"],
-            cfg["default_field_case"], bool(cfg["visualize_deps"]), bool(cfg.get("force"))]
+            cfg["default_field_case"], bool(cfg["visualize_deps"]), bool(cfg.get("force")), ppath]
 
 
 # ------------------------------------------------------------------ worlds (the real tool)
